@@ -11,7 +11,7 @@ var strAlphabet = []string{"", "a", "b", "ab", "abc", "b.c", "a.b", "x", "Z", "h
 
 var numerals = []string{"0", "1", "2", "3", "5", "7", "10", "9", "-1", "-3", "100", "0.5", "1.5", "2.25", "0.1", "0.2", "0.3",
 	"1.0", "01", "1e2", "1E2", "-0", "1.10", "9007199254740993", "9007199254740992", "123456789012345678901234567890",
-	"3.14159", "1e-3", "0.001", "12345678901234567890123456789012345678", "1e21", "1e-7", "4.35", "99.99", "-2.5", "1000000"}
+	"010", "0010", "-010", "017", "3.14159", "1e-3", "0.001", "12345678901234567890123456789012345678", "1e21", "1e-7", "4.35", "99.99", "-2.5", "1000000"}
 
 var zeroSpellings = []string{"0", "-0", "0.0", "-0.0", "0e0", "-0e5"}
 
@@ -171,6 +171,13 @@ func genItem(r *Rng, o ValOpts) Item {
 	}
 	if r.Chance(8) {
 		it = append(it, KV{[]byte("#n1"), genOfType(r, pick(r, []string{"S", "N", "L"}), 0, o)})
+	}
+	// ... and like the value placeholders: the request's :v0 is the request's, whatever the item holds under that name
+	if r.Chance(10) {
+		it = append(it, KV{[]byte(":v0"), genOfType(r, pick(r, []string{"S", "N", "BOOL"}), 0, o)})
+	}
+	if r.Chance(6) {
+		it = append(it, KV{[]byte(":v1"), genOfType(r, pick(r, []string{"S", "N"}), 0, o)})
 	}
 	return it
 }
